@@ -66,7 +66,39 @@ var c20URLs = []c20URLForm{
 	{Name: "scheme-relative-initial", URL: "//trusted.com/start/a", Addr: "trusted.com:80"},
 }
 
-var c20Spells = []string{"canonical", "lower-nonorm", "cookie-api", "upper-nonorm", "add-dup", "no-special"}
+// The mixed-* spellings put the same header name into the request two or three times in different-case spellings
+// (normalizing disabled), adjacent in the header list or separated by the other headers.
+var c20Spells = []string{"canonical", "lower-nonorm", "cookie-api", "upper-nonorm", "add-dup", "no-special",
+	"mixed2-adjacent", "mixed2-separated", "mixed3-adjacent", "mixed3-separated", "mixed2-canon-lower-adjacent", "mixed3-upper-first-adjacent"}
+
+func c20Title(name string) string {
+	b := []byte(strings.ToLower(name))
+	up := true
+	for i, c := range b {
+		if up && c >= 'a' && c <= 'z' {
+			b[i] = c - 32
+		}
+		up = c == '-'
+	}
+	return string(b)
+}
+
+// c20MixedSpellings returns the spellings used by a mixed-* variant, in the order they are set.
+func c20MixedSpellings(spell, name string) []string {
+	lo, up, ti := strings.ToLower(name), strings.ToUpper(name), c20Title(name)
+	switch {
+	case strings.HasPrefix(spell, "mixed2-canon-lower"):
+		return []string{name, lo}
+	case strings.HasPrefix(spell, "mixed3-upper-first"):
+		return []string{up, ti + "", lo}
+	case strings.HasPrefix(spell, "mixed2"):
+		return []string{lo, up}
+	}
+	if ti == name {
+		ti = strings.ToLower(name[:1]) + strings.ToUpper(name[1:])
+	}
+	return []string{lo, up, ti}
+}
 
 var c20APIs = []string{"Client.DoRedirects", "HostClient.DoRedirects", "Client.Get", "Client.GetTimeout", "Client.GetDeadline", "Client.Post", "HostClient.Get", "HostClient.Post"}
 
@@ -415,6 +447,22 @@ func c20SetSensitive(req *Request, spell string) {
 				continue
 			}
 			req.Header.Add(s.Name, s.Value)
+		}
+	case "mixed2-adjacent", "mixed3-adjacent", "mixed2-canon-lower-adjacent", "mixed3-upper-first-adjacent":
+		req.Header.DisableNormalizing()
+		for _, s := range c20Sensitive {
+			for k, sp := range c20MixedSpellings(spell, s.Name) {
+				req.Header.Add(sp, s.Value+"-"+strconv.Itoa(k))
+			}
+		}
+	case "mixed2-separated", "mixed3-separated":
+		req.Header.DisableNormalizing()
+		for k := 0; k < 3; k++ {
+			for _, s := range c20Sensitive {
+				if sps := c20MixedSpellings(spell, s.Name); k < len(sps) {
+					req.Header.Add(sps[k], s.Value+"-"+strconv.Itoa(k))
+				}
+			}
 		}
 	case "no-special":
 		req.Header.DisableSpecialHeader()
